@@ -53,6 +53,37 @@ def case_variants(cp: int) -> Set[int]:
     return set(_LOWER_CLASSES.get(lo, {cp})) | {cp}
 
 
+_CAT_PRED = None
+_CAT_BOUNDS: Dict[str, List[int]] = {}
+
+
+def _cat_pred(cat):
+    """(name, predicate on a code point, negated?) of an sre category for str patterns (Unicode semantics, as `re` uses)"""
+    name = str(cat)
+    neg = 'NOT_' in name
+    if 'DIGIT' in name:
+        return 'digit', (lambda c: chr(c).isdecimal()), neg
+    if 'SPACE' in name:
+        return 'space', (lambda c: chr(c).isspace()), neg
+    if 'WORD' in name:
+        return 'word', (lambda c: chr(c).isalnum() or c == 95), neg
+    raise AnalysisError('unsupported regex category %s' % name)
+
+
+def _cat_bounds(cat) -> List[int]:
+    name, pred, _ = _cat_pred(cat)
+    if name not in _CAT_BOUNDS:
+        b = []
+        prev = False
+        for c in range(MAXCH):
+            v = pred(c)
+            if v != prev:
+                b.append(c)
+                prev = v
+        _CAT_BOUNDS[name] = b
+    return _CAT_BOUNDS[name]
+
+
 def _boundaries(tree, out: Set[int], icase: bool = False):
     if icase:
         tmp: Set[int] = set()
@@ -74,6 +105,8 @@ def _boundaries(tree, out: Set[int], icase: bool = False):
                     out.update((a2[0], a2[1] + 1))
                 elif o2 is sre_c.NEGATE:
                     pass
+                elif o2 is sre_c.CATEGORY:
+                    out.update(_cat_bounds(a2))
                 else:
                     raise AnalysisError('unsupported regex class item %s' % (o2,))
         elif op is sre_c.BRANCH:
@@ -203,6 +236,9 @@ class Alphabet:
                 acc |= self._lit(a2)
             elif o2 is sre_c.RANGE:
                 acc |= self._rng(a2[0], a2[1])
+            elif o2 is sre_c.CATEGORY:
+                _, pred, cneg = _cat_pred(a2)
+                acc |= {i for i, (lo, hi) in enumerate(self.intervals) if pred(lo) != cneg}
             else:
                 raise AnalysisError('unsupported regex class item')
         return set(range(self.n)) - acc if neg else acc
